@@ -776,6 +776,105 @@ func c07NearID(callID, cancelID string, b Bounds) *Scenario {
 	}
 }
 
+// c07SlotWait: with Concurrency 1 a batch member waits for the only handler slot behind its batch-mate
+// and is cancelled while waiting. Its reply is held back with the batch, so its id stays reserved until
+// the batch reply has been sent: a request re-using it meanwhile is a duplicate.
+func c07SlotWait(b Bounds) *Scenario {
+	return &Scenario{
+		Name:   "Concurrency 1: batch[slow(2),fast(1)], CancelRequest(1) while it waits for the slot, id 1 re-used before and after the batch reply",
+		Params: map[string]any{"concurrency": 1},
+		Bounds: b,
+		New: func() *Instance {
+			h := &c07H{gates: NewGates(), running: map[string]string{}}
+			body := func() {
+				lib, peer, _ := NewPipe(PipeOpts{Name: "srv", CloseUnblocksRecv: true})
+				srv := jrpc2.NewServer(c07Assigner{h.handler()}, &jrpc2.ServerOptions{Concurrency: 1})
+				srv.Start(lib)
+				peer.Send([]byte(`[{"jsonrpc":"2.0","id":2,"method":"slow0"},{"jsonrpc":"2.0","id":1,"method":"fast0"}]`))
+				vs.AwaitQuiescence()
+				if h.running["2"] == "" {
+					// the fast member got the slot first and the batch is waiting for the slow one all the same
+					vs.Note("order", "fast-first")
+				}
+				srv.CancelRequest("1")
+				vs.AwaitQuiescence()
+				keys, ok := privKeys(srv, "used")
+				vs.Note("quiet", "after-cancel", strings.Join(keys, ","), fmt.Sprint(ok))
+				peer.Send([]byte(`{"jsonrpc":"2.0","id":1,"method":"fast1"}`))
+				vs.AwaitQuiescence()
+				vs.Note("mark", "before-open")
+				for id := range h.running {
+					delete(h.running, id)
+				}
+				h.gates.Open("slow0")
+				vs.AwaitQuiescence()
+				keys, ok = privKeys(srv, "used")
+				vs.Note("quiet", "after-batch", strings.Join(keys, ","), fmt.Sprint(ok))
+				peer.Send([]byte(`{"jsonrpc":"2.0","id":1,"method":"fast2"}`))
+				vs.AwaitQuiescence()
+				peer.Close()
+				srv.WaitStatus()
+			}
+			check := func(x *vs.Exec) []Viol {
+				v := genericRules(x, nil)
+				if x.Outcome != "ok" {
+					return v
+				}
+				mark := findEv(x, 0, "mark", "before-open")
+				Hit("C07.R5")
+				for _, e := range x.Log {
+					if e.K == "quiet" && e.Arg(2) == "true" {
+						switch e.Arg(0) {
+						case "after-cancel":
+							if e.Arg(1) != "1,2" {
+								v = append(v, Viol{"C07.R5", "the batch reply has not been sent, yet the reserved ids are {" + e.Arg(1) + "} instead of {1,2}"})
+							}
+						case "after-batch":
+							if e.Arg(1) != "" {
+								v = append(v, Viol{"C07.R5", "ids still reserved after the batch reply: {" + e.Arg(1) + "}"})
+							}
+						}
+					}
+				}
+				var before, after []RMsg
+				for _, o := range outEvents(x, "srv") {
+					ms, _, _ := parseRecord([]byte(o.Raw))
+					if o.At < mark {
+						before = append(before, ms...)
+					} else {
+						after = append(after, ms...)
+					}
+				}
+				Hit("C07.R1")
+				if len(before) != 1 || !isDupErr(before[0]) {
+					var raws []string
+					for _, m := range before {
+						raws = append(raws, string(m.Raw))
+					}
+					v = append(v, Viol{"C07.R1", "while the batch reply was held back, the request re-using id 1 must be refused as duplicate (and nothing else sent); got " + strings.Join(raws, " ")})
+				}
+				// afterwards: the batch reply (2: result, 1: some outcome) and the accepted re-use of id 1
+				n1 := 0
+				for _, m := range after {
+					if m.ID() == "1" {
+						n1++
+					}
+				}
+				Hit("C07.R2")
+				if len(after) != 3 || n1 != 2 || !after[2].Has("result") {
+					var raws []string
+					for _, m := range after {
+						raws = append(raws, string(m.Raw))
+					}
+					v = append(v, Viol{"C07.R2", "expected the batch reply for ids 2 and 1, then a result for the new call with id 1; got " + strings.Join(raws, " ")})
+				}
+				return v
+			}
+			return &Instance{Body: body, Check: check}
+		},
+	}
+}
+
 func c07Scenarios(tier string) []*Scenario {
 	var out []*Scenario
 	var firsts []c07Op
@@ -797,12 +896,14 @@ func c07Scenarios(tier string) []*Scenario {
 		}
 		out = append(out, c07Restart("stop", Bounds{1, -1, 0}), c07Restart("eof", Bounds{1, -1, 0}))
 		out = append(out, c07NearID(`"7"`, `7`, Bounds{1, 1, 0}), c07NearID(`7`, `"7"`, Bounds{1, 1, 0}))
+		out = append(out, c07SlotWait(Bounds{1, 1, 0}))
 		return out
 	}
 	for _, k := range c07EagerKinds {
 		out = append(out, c07Eager(k, Bounds{3, -1, 1}))
 	}
 	out = append(out, c07Restart("stop", Bounds{2, -1, 1}), c07Restart("eof", Bounds{2, -1, 1}))
+	out = append(out, c07SlotWait(Bounds{2, 2, 0}))
 	out = append(out, c07NearID(`"7"`, `7`, Bounds{2, 2, 0}), c07NearID(`7`, `"7"`, Bounds{2, 2, 0}), c07NearID(`"\"7\""`, `"7"`, Bounds{2, 2, 0}))
 	for _, f := range firsts {
 		out = append(out, c07History(f, 3, false, Bounds{2, -1, 0}))
